@@ -121,6 +121,20 @@ def gen_rr(rnd, idx):
                 load[t] += amt
             atoms.append({"res": r, "start": Fraction(s), "end": Fraction(e), "amount": amt})
             horizon = max(horizon, Fraction(e))
+    # exact-fit group: atoms with fixed, identical intervals whose amounts add up to exactly the capacity (they MUST overlap)
+    forced = []
+    if rnd.random() < 0.35:
+        r = rnd.choice(res)
+        s0 = Fraction(rnd.randint(10, 14))
+        e0 = s0 + rnd.randint(1, 3)
+        k = rnd.randint(2, 3)
+        rest = r["cap"]
+        for j in range(k):
+            amt = rest if j == k - 1 else Fraction(rnd.randint(0, int(rest * 2)), 2)
+            rest -= amt
+            forced.append({"res": r, "start": s0, "end": e0, "amount": amt, "forced": True})
+        horizon = max(horizon, e0)
+    atoms += forced
     rnd.shuffle(atoms)
     stmts = []
     decl = False
@@ -134,7 +148,10 @@ def gen_rr(rnd, idx):
             scope = "rv%d" % i      # one variable per atom
             stmts.append("ReusableResource %s;" % scope)
             a["free_tau"] = True
-        mode = rnd.random()
+        mode = rnd.random() if not a.get("forced") else 0.0
+        if a.get("forced"):
+            scope = a["res"]["name"]
+            a.pop("free_tau", None)
         cons = []
         args = ["amount:%s" % f2(a["amount"])]
         if mode < 0.35:
